@@ -20,7 +20,7 @@ RULE = ("Hypothesis generates a list of 1-6 unrelated arguments mixing trashable
 ASSUMPTIONS = ["arguments never alias, contain or point to each other (by construction)",
                "'naming' a non-UTF-8 argument = its backslash-escaped form appears on stderr"]
 
-ARGK = ["file", "file", "tree", "link_dangling", "link_file", "nonexistent", "dot", "raw", "badvol", "dup",
+ARGK = ["file", "file", "tree", "link_dangling", "link_file", "nonexistent", "dot", "raw", "badvol", "dup", "dashname",
         "goodvol", "goodvol", "emptyarg"]
 
 
@@ -61,6 +61,8 @@ def build(case):
     first_ok = None
     for k, nm in zip(case["kinds"], case["names"]):
         p = home + "/w/" + nm
+        if k == "dot" and "dashname" in case["kinds"]:
+            k = "nonexistent"   # ('.' would contain the dash-named entries of the working directory)
         if k == "dup":
             if first_ok is None:
                 k = "file"
@@ -84,6 +86,13 @@ def build(case):
         elif k == "goodvol":
             p = "/good/w/" + nm
             nodes.append({"p": p, "t": "f", "c": "on the good volume"})
+        elif k == "dashname":
+            # an entry of the working directory whose NAME spells an option, given after '--'
+            p = ["-f", "-v", "-rf", "--force", "-i", "--trash-dir", "-x", "--", "-", "--help"][
+                (len(nm) + len(args)) % 10]
+            if p in args:
+                p = home + "/w/" + nm
+            nodes.append({"p": (home + "/cwd/" + p) if not p.startswith("/") else p, "t": "f", "c": "dash"})
         elif k == "emptyarg":
             p = ""   # what a script passes for "$unset": names nothing
         elif k == "dot":
